@@ -27,6 +27,10 @@ MutStep(rl, rr) ==
          LET Pe == { i \in S : ~ \E j \in S \ {i} : <<j,i>> \in rl.c }
              Dx == { i \in S \ Pe : \E j \in Pe : <<i,j>> \in rl.a }  S1 == S \ Dx
              NP == VogpNewP(S1, P, rl.b) IN [S |-> S1 \ NP, P |-> P \cup NP, U |-> {}]
+    [] Mut = "pess-stale" ->             \* pessimistic comparison also against designs that were discarded earlier (their stale regions)
+         LET W0 == S \cup P  Pe == { i \in W0 : ~ \E j \in D \ {i} : <<j,i>> \in rl.c }
+             Dx == { i \in S \ Pe : \E j \in Pe : <<i,j>> \in rl.a }  S1 == S \ Dx
+             NP == VogpNewP(S1, P, rl.b) IN [S |-> S1 \ NP, P |-> P \cup NP, U |-> {}]
     [] Mut = "pdom-swapped" ->           \* pessimistic comparison with its arguments exchanged
          LET W0 == S \cup P  Pe == { i \in W0 : ~ \E j \in W0 \ {i} : <<i,j>> \in rl.c }
              Dx == { i \in S \ Pe : \E j \in Pe : <<i,j>> \in rl.a }  S1 == S \ Dx
